@@ -35,7 +35,7 @@ def comm_for(rng, mode, price, qty):
     if mode == 'zero':
         return 0.0
     if mode == 'flat':
-        return float(rng.choice([1.0, 9.99, 0.35, 25.0]))
+        return rng.choice([1.0, 9.99, 0.35, 25.0, 1, 5, 12])          # whole-number commissions arrive as ints too
     if rng.random() < 0.12:
         return -abs(price * qty) * rng.choice([0.0002, 0.001])      # a rebate: commissions are real-valued (C03's quantifier)
     return abs(price * qty) * rng.choice([0.0005, 0.001, 0.01, 0.07])
